@@ -1040,7 +1040,9 @@ class IMAPSubprocessInterface:
             while True:
                 if self.reader.at_eof():
                     break
-                msg = await self.reader.readuntil(b"\r\n")
+                msg = await self.reader.read(65536)
+                if not msg:
+                    break
                 await self.imap_client.push(msg)
         except (OSError, asyncio.IncompleteReadError, ConnectionResetError):
             pass
